@@ -91,6 +91,20 @@ Section CrashAmend.
       incl dyn (extra_now amend (abase (a_build_prefix proj k y)) s) ->
       crash_state_a proj y (torn_a s (a_build_prefix proj k y) junk dyn).
 
+  (* the same, but the torn step was really DISPATCHED to execution at that point (its decision was
+     run, deferral or failure): a step that the dispatch rule holds back (not ready, or gated) has no
+     command that could be running.  Without this the gated statement is false
+     (proofs/CrashEngineAmend.v gated_needs_dispatch_refuted): tearing a gated step forgets the
+     remembered edge that blocks it. *)
+  Definition dispatched (proj : project) (s : step) (z : asys) : bool :=
+    match decide amend fails gate proj s z with DRun | DDefer | DFail => true | _ => false end.
+  Inductive crash_state_ad (proj : project) (y : asys) : asys -> Prop :=
+  | CSD_between (k : nat) : crash_state_ad proj y (a_build_prefix proj k y)
+  | CSD_inside (k : nat) (s : step) (junk : N -> option N) (dyn : list N) :
+      nth_error proj k = Some s -> dispatched proj s (a_build_prefix proj k y) = true ->
+      incl dyn (extra_now amend (abase (a_build_prefix proj k y)) s) ->
+      crash_state_ad proj y (torn_a s (a_build_prefix proj k y) junk dyn).
+
   (* the restarted director: reset_interrupted_steps + startup rescans against the world as it
      is, then a build *)
   Definition restart_a (proj : project) (c : asys) : asys :=
